@@ -142,6 +142,9 @@ def match_known(known, c, kind, detail):
                           and ("rule" not in e or e["rule"] == c["desc"].get("rule")) for e in v)
             elif k == "panic_in":
                 ok &= (detail.get("panic") or "") in v
+            elif k == "open_subpath":
+                import re as _re
+                ok &= any(not sp.rstrip().endswith("z") for sp in _re.findall(r"M[^M]*", c["desc"].get("P") or "")) == v
             elif k == "reversed_duplicate":
                 ok &= has_reversed_duplicate(c["desc"].get("P"), c["desc"].get("Q")) == v
             elif k == "kind_in":
